@@ -582,6 +582,7 @@ type Explorer struct {
 	PreemptSite func(pc uintptr) bool
 
 	shared     map[uintptr]bool
+	pending    []item // what an exploration cut by Stop/MaxExec had left to do (see Resumable)
 	Executions int
 	MaxPoints  int
 	Capped     bool
@@ -613,6 +614,11 @@ func SiteFunc(pc uintptr) string {
 // SharedSites returns the number of lock call sites seen on objects touched by >= 2 threads.
 func (e *Explorer) SharedSites() int { return len(e.shared) }
 
+// Resumable reports whether the last Explore was cut by Stop or MaxExec with work left; the next Explore call then
+// continues that exploration (same Bound and filters expected) instead of starting over. Restart discards it.
+func (e *Explorer) Resumable() bool { return len(e.pending) > 0 }
+func (e *Explorer) Restart()        { e.pending = nil }
+
 type item struct {
 	prefix []int
 	expect []string
@@ -630,14 +636,18 @@ func (e *Explorer) Explore(body func(x *Exec)) {
 	if e.MaxSteps == 0 {
 		e.MaxSteps = 200000
 	}
-	stack := []item{{}}
+	stack := e.pending
+	e.pending = nil
+	if stack == nil {
+		stack = []item{{}}
+	}
 	for len(stack) > 0 {
 		if e.Stop != nil && e.Stop() {
-			e.Capped = true
+			e.Capped, e.pending = true, stack
 			return
 		}
 		if e.MaxExec > 0 && e.Executions >= e.MaxExec {
-			e.Capped = true
+			e.Capped, e.pending = true, stack
 			return
 		}
 		it := stack[len(stack)-1]
